@@ -38,7 +38,7 @@ def levels(tier):
         {"name": "n3-wide", "shapes": [[1, 2, 3]], "n": 3, "alphabet": ["we", "delwe", "addprefix", "rmprefix", "moveprefix"]},
         {"name": "variants-n3", "shapes": [[1, 2, 2]], "n": 3, "alphabet": ["we", "delwe", "rmprefix", "moveprefix"], "api_variants": True},
         {"name": "n4", "shapes": [[1, 2, 2]], "n": 4, "alphabet": ["we", "delwe", "addprefix"]},
-        {"name": "auto-n3", "typed": TPOOL, "default": "domain", "anchored": (1, 3, "path1"), "n": 3, "alphabet": ["we", "page", "delwe"], "every_step": True},
+        {"name": "auto-n3", "typed": TPOOL, "default": "domain", "anchored": (1, 3, "path1"), "n": 3, "alphabet": ["we", "page"], "every_step": True},
     ]
 
 
